@@ -2,8 +2,8 @@
 from ..main import k_suite, Violation, parse_mismatch, Trace
 from .. import gen
 
-LEAN_MODULES = ["Shm.Props.C12"]
-GEN_TABLES = ["MechTable.lean", "Access.lean"]
+LEAN_MODULES = ["Shm.Props.C12", "Shm.Props.FactsC12"]
+GEN_TABLES = ["EntryFacts.lean", "MechTable.lean", "Access.lean"]
 LEVEL = "proof"
 OPS = {"encinit", "decinit", "siginit", "verinit", "diginit", "findinit", "enc", "dec", "sign", "digest", "verify", "encupd", "decupd", "sigupd", "verupd", "digupd",
        "digkey", "encfinal", "decfinal", "sigfinal", "verfinal", "digfinal", "find", "findfinal"}
